@@ -114,7 +114,7 @@ OpFMA(z, x, y, u) ==
   LET p    == IF z.prec # 0 THEN z.prec ELSE MaxI(MaxI(x.prec, y.prec), u.prec)
       pneg == x.neg # y.neg                     \* sign of the product
       allf == x.form = "finite" /\ y.form = "finite" /\ u.form = "finite"
-      pid  == IF allf THEN {"C03"} ELSE {"C04"}
+      pid  == IF allf THEN {"C03"} ELSE {"C03", "C04"}     \* C03 quantifies over zeros and infinities too (sign rule of an exactly zero sum, aliasing)
   IN CASE (x.form = "zero" /\ y.form = "inf") \/ (x.form = "inf" /\ y.form = "zero") -> NaN(p, z.mode)
        [] x.form = "inf" \/ y.form = "inf" ->                      \* infinite product
             IF u.form = "inf" /\ u.neg # pneg THEN NaN(p, z.mode)
